@@ -125,6 +125,14 @@ def oracle(case, impl_line):
     return why
 
 
+def canon(case, line):
+    """the harness appends reload flags to the observation of a sort step (used by C14); the model has none"""
+    out = ml.decode_out(line)
+    if out is None:
+        return line
+    return [o[:2] if isinstance(o, list) and len(o) >= 2 else o for o in out]
+
+
 def classify_known(case, why):
     return 'uid-doubling-overflow' if 'overflow' in why else None
 
